@@ -132,7 +132,7 @@ fn net_rule(r: &mut Rng) -> String {
 }
 
 fn cos_rule(r: &mut Rng) -> String {
-    let n = r.below(3);
+    let n = r.below(5);
     let locs: Vec<String> = (0..n)
         .map(|_| format!("{}{}", if r.chance(1, 4) { "~" } else { "" }, r.ps(&["a.com", "b.co.uk", "example.*", "bücher.de", "sub.a.com", "~x.*", "EXAMPLE.org"]).trim_start_matches('~')))
         .collect();
@@ -240,7 +240,7 @@ fn convert(lines: &[String]) -> Result<Result<(Vec<CbRule>, Vec<String>), ()>, S
 
 pub fn run(ctx: &mut Ctx) {
     let sub = "export";
-    let cases = ctx.n(250_000, 4_000_000);
+    let cases = ctx.n(250_000, 16_000_000);
     for idx in 0..cases {
         if ctx.stop() {
             break;
